@@ -844,6 +844,13 @@ func (t *tr) builtin(ins ssa.Instruction, x ssa.Value, cc *ssa.CallCommon, b *ss
 	}
 }
 
+// elemCopyFact: for composite elements (stride > 1): element i of the destination range equals element i of the source,
+// one fact per cell f of the element, phrased over cidx so that the trigger has no arithmetic.
+func elemCopyFact(nw, old, dTyp, dRef, dBase, sTyp, sRef, sBase string, k, f int, n string) string {
+	return fmt.Sprintf("(forall ((i Int)) (! (=> (and (<= 0 i) (< i %s)) (= (select (select (select %s %s) %s) (cidx %s %d i %d)) (select (select (select %s %s) %s) (cidx %s %d i %d)))) :pattern ((select (select (select %s %s) %s) (cidx %s %d i %d)))))",
+		n, nw, dTyp, dRef, dBase, k, f, old, sTyp, sRef, sBase, k, f, nw, dTyp, dRef, dBase, k, f)
+}
+
 // blockCopyFacts: cells [dstOff, dstOff+n) of object dst in heap version nw equal cells [srcOff, ...) of src in version old.
 func blockCopyFact(nw, old, dTyp, dRef, dOff, sTyp, sRef, sOff, n string) string {
 	return fmt.Sprintf("(forall ((y Int)) (! (=> (and (<= %s y) (< y (+ %s %s))) (= (select (select (select %s %s) %s) y) (select (select (select %s %s) %s) (+ %s (- y %s))))) :pattern ((select (select (select %s %s) %s) y))))",
@@ -886,7 +893,8 @@ func (t *tr) appendBuiltin(ins ssa.Instruction, x ssa.Value, args []ssa.Value, R
 	rTyp, rRef, rOff := "(styp "+r+")", "(sref "+r+")", "(soff "+r+")"
 	oldCells := mulConst("(slen "+s+")", k)
 	newCells := mulConst(eLen, k)
-	for _, ls := range uniq(leaves(el)) {
+	elLeaves := leaves(el)
+	for _, ls := range uniq(elLeaves) {
 		h := "H_" + ls
 		old := t.H(heaps, h)
 		nw := t.newHeap(h)
@@ -895,6 +903,22 @@ func (t *tr) appendBuiltin(ins ssa.Instruction, x ssa.Value, args []ssa.Value, R
 		t.assume(R, fmt.Sprintf("(= %s (store %s %s (store (select %s %s) %s (select (select %s %s) %s))))", nw, old, rTyp, old, rTyp, rRef, nw, rTyp, rRef))
 		// prefix preserved (copied when reallocated)
 		t.assume(R, blockCopyFact(nw, old, rTyp, rRef, rOff, "(styp "+s+")", "(sref "+s+")", "(soff "+s+")", oldCells))
+		if k > 1 {
+			for f, fl := range elLeaves {
+				if fl != ls {
+					continue
+				}
+				t.assume(R, elemCopyFact(nw, old, rTyp, rRef, rOff, "(styp "+s+")", "(sref "+s+")", "(soff "+s+")", k, f, "(slen "+s+")"))
+				if !isStr && len(args) > 1 {
+					// appended elements: destination element (len(s) + i) = source element i
+					t.assume(R, fmt.Sprintf("(forall ((i Int)) (! (=> (and (<= 0 i) (< i %s)) (= (select (select (select %s %s) %s) (cidx %s %d (+ (slen %s) i) %d)) (select (select (select %s %s) %s) (cidx %s %d i %d)))) :pattern ((select (select (select %s %s) %s) (cidx %s %d i %d)))))",
+						eLen, nw, rTyp, rRef, rOff, k, s, f, old, eTyp, eRef, eOff, k, f, old, eTyp, eRef, eOff, k, f))
+					// a single appended element (the common case): stated directly, no instantiation needed
+					t.assume(R, fmt.Sprintf("(=> (= %s 1) (= (select (select (select %s %s) %s) (cidx %s %d (slen %s) %d)) (select (select (select %s %s) %s) (cidx %s %d 0 %d))))",
+						eLen, nw, rTyp, rRef, rOff, k, s, f, old, eTyp, eRef, eOff, k, f))
+				}
+			}
+		}
 		// appended elements
 		dOff := fmt.Sprintf("(+ %s %s)", rOff, oldCells)
 		if isStr {
